@@ -149,3 +149,47 @@ def install(reg: Any) -> None:
     reg.models["ext:io.BufferedReader"] = br
     reg.models["ext:google.protobuf.proto.parse_length_prefixed"] = ParseLPModel()
     reg.models["ext:google.protobuf.proto.parse"] = ParseModel()
+    install_output(reg)
+
+
+# ------------------------------------------------------------------------------------------------------ output side
+class ByteSinkModel:
+    """A-IO: a binary output; what is tracked is the sequence of writes as (how, frame) pairs in the ghost list `writes`:
+    how = "delimited" for serialize_length_prefixed(frame, out), "single" for out.write(frame.SerializeToString(...))."""
+    name = "A-IO binary output (frames written, in order, with their framing)"
+    kind = "bytesink"
+
+    def make(self, eng: Any, st: State, sort: Sort, name: str) -> tuple[State, Any, list]:
+        st, r = eng.alloc(st, "bytesink", "IO", writes=())
+        return st, r, []
+
+    def getattr(self, eng: Any, st: State, r: Ref, attr: str, node: Any, ctx: Any):
+        yield st, BuiltinMethod(r, attr)
+
+    def havoc(self, eng: Any, st: State, r: Ref, name: str) -> State:
+        # an unknown number of earlier writes: one opaque entry
+        return st.heap_set(r, "writes", (("$earlier", V.fresh_int(name)),))
+
+    def call_method(self, eng: Any, st: State, r: Ref, name: str, args: list, kwargs: dict, node: Any, ctx: Any):
+        if name == "write" and len(args) == 1:
+            v = args[0]
+            if isinstance(v, Ref) and st.obj(v).kind == "wire":
+                yield st.heap_set(r, "writes", st.obj(r).get("writes") + (("single", st.obj(v).get("msg")),)), None
+                return
+            raise Unsupported("write() of something that is not a serialised message", node)
+        raise Unsupported(f"IO.{name} on an output", node)
+
+
+class SerializeLPModel:
+    name = "A-IO/A-PROTO google.protobuf.proto.serialize_length_prefixed"
+
+    def call(self, eng: Any, st: State, args: list, kwargs: dict, node: Any, ctx: Any):
+        msg, out = args
+        if not (isinstance(out, Ref) and st.obj(out).kind == "bytesink"):
+            raise Unsupported("serialize_length_prefixed to something that is not a binary output", node)
+        yield st.heap_set(out, "writes", st.obj(out).get("writes") + (("delimited", msg),)), None
+
+
+def install_output(reg: Any, proto_model: Any = None) -> None:
+    reg.models["bytesink"] = ByteSinkModel()
+    reg.models["ext:google.protobuf.proto.serialize_length_prefixed"] = SerializeLPModel()
